@@ -4,7 +4,7 @@ import ast
 
 from ..rulekit import *
 from ..exc import EscapeAnalysis
-from ._kit_c09 import Walker, K, none_test, const_test, origin
+from ._kit_c09 import Walker, K, none_test, const_test, origin, record_fields, record_arg
 
 R = Rules(
     "C09",
@@ -295,6 +295,162 @@ def _isinstance_decisions(o, W, subject_ok):
 
 
 # ---------------------------------------------------------------------------
+# the event record
+
+EVENT_DECL = "pipe.Pipe.Event"
+EVENT_FIELDS = ("message", "exception", "is_last")
+
+
+def _event_layout(ctx):
+    """field names of Pipe.Event by position, read from its declaration (None when the declaration is not a named
+    tuple the kit can read: handlers are then only understood through attribute access)"""
+    fields = record_fields(ctx.prog, EVENT_DECL)
+    if fields is None or not set(EVENT_FIELDS) <= set(fields):
+        ctx.note("Pipe.Event is not declared as a named tuple with the fields %s: positional reads of an event are not interpreted" % (EVENT_FIELDS,))
+        return None
+    return fields
+
+
+def _event_records(ctx, param):
+    """Walker `records` argument declaring `param` (the parameter of an event handler) to hold a Pipe.Event"""
+    fields = _event_layout(ctx)
+    return {param: fields} if fields is not None else {}
+
+
+def _event_premise(ctx, W):
+    """When a handler read its event by position / by unpacking (W.rec_uses), identifying `event[i]` with the field the
+    declaration puts at position i rests on the parameter really being a Pipe.Event: everything handed to
+    `_add_event` anywhere in the package, and everything the pipe calls its registered callbacks with, must be a
+    Pipe.Event built on the spot (or the very event `_add_event` received).  Decided once per program; if it does not
+    hold the clause refuses."""
+    if not W.rec_uses:
+        return
+    prog = ctx.prog
+    res = getattr(prog, "_c09_event_premise", None)
+    if res is None:
+        fields = record_fields(prog, EVENT_DECL)
+        bad = []
+        is_event = lambda v: isinstance(v, ast.Call) and getattr(v, "_rec", None) == fields and record_arg(v, fields[0]) is not None
+        producers = [fi for fi in prog.funcs.values() if any(isinstance(c.func, ast.Attribute) and c.func.attr == "_add_event" for c in calls_in(fi.node))]
+        for fi in sorted(producers, key=lambda f: f.qn):
+            for o in Walker(prog).run(fi):
+                for _, e in o.calls(lambda e: isinstance(e.func, ast.Attribute) and e.func.attr == "_add_event"):
+                    if not (len(e.args) == 1 and not e.kw and is_event(e.args[0])):
+                        bad.append("%s: %s" % (fi.short, K(e.expr)))
+        for short in ("pipe.Pipe._add_event", "pipe.Pipe._end"):
+            fi = prog.func(short)
+            ps = params(fi)
+            for o in Walker(prog, loop_bound=2, elem_records=_entry_records(prog)).run(fi):
+                for _, e in o.calls(lambda e: _entry_of_callback(e.func) is not None):
+                    ok = len(e.args) == 1 and not e.kw and (is_event(e.args[0]) or (ps and chain(e.args[0]) == ps[0] and not writes_to_name(fi.node, ps[0])))
+                    if not ok:
+                        bad.append("%s: %s" % (fi.short, K(e.expr)))
+        res = sorted(set(bad))
+        prog._c09_event_premise = res
+    ctx.need(not res, "an event handler reads its event by position, but not everything delivered to handlers is a Pipe.Event built from the declaration: %s" % "; ".join(res[:3]))
+    ctx.note("event handlers read events by position: every value handed to _add_event / to registered callbacks is a Pipe.Event(...) of the declared layout %s" % (record_fields(prog, EVENT_DECL),))
+
+
+def _resolve_handler(prog, W, cv):
+    """(FuncInfo, {parameter: resolved value bound at registration}, event parameter) of a callable value (resolved by
+    walker W) that is handed to Pipe.on_event: a nested def, a module-level function, a bound method `self.m` -- bare
+    or wrapped in functools.partial(f, a.., k=v..), whose arguments then bind the leading parameters.  The event is the
+    first parameter left unbound.  None for anything else (lambdas, *args, callables the program does not define)."""
+    r = _resolve_callable(prog, W, cv)
+    if r is None or not isinstance(r[0].node, ast.FunctionDef):
+        return None
+    fi, env, free, required = r
+    if not free or len(required) > 1 or (required and required[0] != free[0]):
+        return None
+    return fi, env, free[0]
+
+
+def _resolve_coroutine(prog, W, call):
+    """(FuncInfo, {parameter: resolved argument}) of a coroutine object `f(a..)` (resolved Call) built from an async
+    function the program defines (nested def, module-level function, method of self), all parameters bound"""
+    if not isinstance(call, ast.Call) or any(isinstance(x, ast.Starred) for x in call.args) or any(k.arg is None for k in call.keywords):
+        return None
+    r = _resolve_callable(prog, W, call.func, list(call.args), {k.arg: k.value for k in call.keywords})
+    if r is None or not isinstance(r[0].node, ast.AsyncFunctionDef) or r[3]:
+        return None
+    return r[0], r[1]
+
+
+def _resolve_callable(prog, W, cv, args=(), kw=None):
+    """(FuncInfo, env, parameters left unbound, those of them without a default) for the callable value cv applied to
+    the (resolved) arguments"""
+    bound_args, bound_kw = list(args), dict(kw or {})
+    for _ in range(3):
+        if isinstance(cv, ast.Call) and chain(cv.func) in ("functools.partial", "partial") and cv.args and not any(isinstance(x, ast.Starred) for x in cv.args) and not any(k.arg is None for k in cv.keywords):
+            bound_args = list(cv.args[1:]) + bound_args
+            for k in cv.keywords:
+                bound_kw.setdefault(k.arg, k.value)
+            cv = cv.args[0]
+        else:
+            break
+    fi, skip = None, 0
+    if isinstance(cv, ast.Name) and hasattr(cv, "_closure"):
+        fi = cv._closure[2]
+    elif isinstance(cv, (ast.Name, ast.Attribute)):
+        c = chain(cv) or ""
+        parts = c.split(".")
+        if len(parts) == 2 and parts[0] in ("self", "cls"):
+            wfi = getattr(cv, "_fi", None)
+            clsqn = W._clsqn(wfi) if wfi is not None else None
+            fi = prog.lookup_method(clsqn, parts[1]) if clsqn is not None else None
+            if fi is not None and params(fi, skip_self=False)[:1] in (["self"], ["cls"]):
+                skip = 1
+        elif c:
+            fi = prog.funcs.get(W.cls_of(cv) or "")
+            if fi is not None and (fi.cls is not None or fi.parent is not None):
+                fi = None
+    if fi is None or not isinstance(fi.node, (ast.FunctionDef, ast.AsyncFunctionDef)):
+        return None
+    a = fi.node.args
+    if a.vararg or a.kwarg or fi.node.decorator_list:
+        return None
+    allps = [x.arg for x in a.posonlyargs + a.args]
+    ps = allps[skip:]
+    if len(bound_args) > len(ps):
+        return None
+    env = dict(zip(ps, bound_args))
+    for k, v in bound_kw.items():
+        if k in env or k not in ps + [x.arg for x in a.kwonlyargs]:
+            return None
+        env[k] = v
+    free = [p_ for p_ in ps if p_ not in env]
+    required = [p_ for p_ in free if allps.index(p_) < len(allps) - len(a.defaults)]
+    return fi, env, free, required
+
+
+def _registered_handler(ctx, outer, named, recv_ok):
+    """the event handler a function registers: what it passes to `<pipe>.on_event(...)` on its returning paths (pipes
+    selected by recv_ok(outcome, resolved receiver)), resolved through locals, functools.partial and bound methods.
+    Falls back to the nested def of the confirmed tree (`named`) when the registration cannot be read -- the clauses
+    then still check that this very function is what is registered.  -> (FuncInfo, env, event parameter)"""
+    prog = ctx.prog
+    WO = Walker(prog)
+    found = {}
+    for o in WO.run(outer):
+        if o.kind != "return":
+            continue
+        for _, e in _method_calls(o, "on_event", lambda r: recv_ok(o, r), partial=False):
+            cb = e.arg("callback", 0)
+            h = _resolve_handler(prog, WO, cb) if cb is not None else None
+            if h is not None:
+                found[(h[0].qn, h[2], tuple(sorted((k, K(v)) for k, v in h[1].items())))] = h
+    if len(found) == 1:
+        h = list(found.values())[0]
+        if h[0].short != named:
+            ctx.note("%s registers %s as its event handler (bound at registration: %s)" % (outer.short, h[0].short, ", ".join("%s=%s" % (k, K(v)) for k, v in sorted(h[1].items())) or "nothing"))
+        return h
+    fi = prog.func(named)
+    ep = params(fi, skip_self=False)
+    ctx.need(len(ep) == 1, "%s signature changed" % named)
+    return fi, {}, ep[0]
+
+
+# ---------------------------------------------------------------------------
 # C09.a / C09.b  error_to_message.on_event
 
 
@@ -308,15 +464,20 @@ def _e2m(ctx):
     prog = ctx.prog
     Q = _E2M()
     outer = Q.outer = prog.func("pipe.error_to_message")
-    fi = Q.fi = prog.func("pipe.error_to_message.<locals>.on_event")
     op = params(outer)
-    ep = params(fi, skip_self=False)
-    ctx.need(len(op) == 2 and len(ep) == 1, "error_to_message / on_event signature changed")
-    Q.old, Q.ev = op[0], ep[0]
-    ctx.need(not writes_to_name(outer.node, Q.old) and _closure_ref(fi.node, Q.old, Q.old) and not writes_to_name(fi.node, Q.ev), "old pipe or event rebound")
-    W = Q.W = Walker(prog)
-    Q.outs = W.run(fi)
+    ctx.need(len(op) == 2, "error_to_message signature changed")
+    # the handler is whatever error_to_message registers on the pipe it returns
+    fi, env0, Q.ev = _registered_handler(ctx, outer, "pipe.error_to_message.<locals>.on_event", lambda o, r: K(r) == K(o.value))
+    Q.fi = fi
+    Q.old = op[0]
+    ctx.need(not writes_to_name(outer.node, Q.old) and not writes_to_name(fi.node, Q.ev), "old pipe or event rebound")
+    if fi.parent is outer:
+        # a closure reads the old pipe from the enclosing scope (or through a default-argument binding of it)
+        ctx.need(_closure_ref(fi.node, Q.old, Q.old), "old pipe rebound")
+    W = Q.W = Walker(prog, records=_event_records(ctx, Q.ev))
+    Q.outs = W.run(fi, env=env0)
     ctx.need(bool(Q.outs), "on_event has no path")
+    _event_premise(ctx, W)
     Q.is_msg = lambda v: chain(v) == Q.ev + ".message"
     Q.is_exc = lambda v: chain(v) == Q.ev + ".exception"
     Q.exc_outs, Q.msg_outs = [], []
@@ -327,6 +488,21 @@ def _e2m(ctx):
     ctx.need(Q.exc_outs and Q.msg_outs, "on_event does not branch on `event.message is None`")
     Q.adds = lambda o, partial=None: [e for _, e in _method_calls(o, "add_response", lambda r: chain(r) == Q.old, partial)]
     Q.renders = lambda o, partial=None: [e for _, e in _method_calls(o, "to_message", Q.is_exc, partial) if not e.args and not e.kw]
+    # what an exception event is answered with must be visible to the walk: a Message(...) built on the path or the
+    # error's own rendering.  The result of a call the walk could not follow for reasons of its own (recursion, depth,
+    # *args, a generator, an overridden method, a function of the confirmed tree) is neither provably right nor
+    # provably wrong: refuse, do not guess
+    for o in Q.exc_outs:
+        for e in Q.adds(o):
+            v = e.arg("response", 0)
+            if isinstance(v, ast.Await):
+                v = v.value
+            uf = getattr(v, "_unfollowed", None) if isinstance(v, ast.Call) else None
+            if uf is not None and getattr(uf.node, "decorator_list", None):
+                # a decorated helper is not the helper's body (lru_cache: one shared mutable Message for every failing
+                # request): its result is not "a message built on the spot", the obligations below say so
+                uf = None
+            ctx.need(uf is None, "the response to an exception event is computed by %s (%s), which the walk cannot follow" % (K(v), uf.short if uf is not None else ""))
     if W.followed:
         ctx.note("helpers followed from on_event: %s" % ", ".join(W.followed))
     return Q
@@ -423,7 +599,7 @@ def a(ctx):
         node = Q.outer.node
         if ok:
             kv = K(o.value)
-            regs = [e for _, e in _method_calls(o, "on_event", lambda r: True, partial=False) if e.args and isinstance(e.args[0], ast.Name) and getattr(e.args[0], "_closure", (None,))[0] is fi.node]
+            regs = [e for _, e in _method_calls(o, "on_event", lambda r: True, partial=False) if e.arg("callback", 0) is not None and (_resolve_handler(prog, WO, e.arg("callback", 0)) or (None,))[0] is fi]
             ok = any(K(e.func.value) == kv for e in regs) and not isinstance(o.value, ast.Constant)
             node = regs[0].node if regs else origin(o.value)
         obs.add("the pipe handed to the responder is the one this handler listens on", ok, Q.outer, node if not isinstance(node, (ast.FunctionDef, ast.AsyncFunctionDef)) else None,
@@ -485,14 +661,32 @@ def b(ctx):
 def c(ctx):
     prog = ctx.prog
     outer = prog.func("pipe.run_driving_pipe")
-    fi = prog.func("pipe.run_driving_pipe.<locals>.wrapped")
     op = params(outer)
     ctx.need(len(op) >= 2 and not writes_to_name(outer.node, op[0]) and not writes_to_name(outer.node, op[1]), "run_driving_pipe signature changed")
     pipe, coro = op[0], op[1]
-    ctx.need(_closure_ref(fi.node, coro, coro) and _closure_ref(fi.node, pipe, pipe), "wrapped() does not see run_driving_pipe's pipe / coroutine")
+    # the wrapper is whatever coroutine run_driving_pipe makes a task of: the nested def of the confirmed tree, or an
+    # async function (module level, nested) applied to the pipe and the coroutine
+    is_task = lambda e: (isinstance(e.func, ast.Attribute) and e.func.attr in ("create_task", "ensure_future")) or chain(e.func) in ("create_task", "ensure_future")
+    WO = Walker(prog)
+    oouts = [o for o in WO.run(outer) if o.kind == "return"]
+    bodies = {}
+    for o in oouts:
+        for _, e in o.calls(is_task, partial=False):
+            c0 = e.arg("coro", 0)
+            r = _resolve_coroutine(prog, WO, c0) if c0 is not None else None
+            if r is not None:
+                bodies[(r[0].qn, tuple(sorted((k, K(v)) for k, v in r[1].items())))] = r
+    if len(bodies) == 1:
+        fi, env0 = list(bodies.values())[0]
+    else:
+        fi, env0 = prog.func("pipe.run_driving_pipe.<locals>.wrapped"), {}
+    if fi.parent is outer:
+        ctx.need(_closure_ref(fi.node, coro, coro) and _closure_ref(fi.node, pipe, pipe), "wrapped() does not see run_driving_pipe's pipe / coroutine")
+    else:
+        ctx.note("run_driving_pipe runs %s as its task" % fi.short)
     obs = _Obs(ctx)
     W = Walker(prog)
-    outs = W.run(fi)
+    outs = W.run(fi, env=env0)
     n_aw = 0
     for o in outs:
         aws = [(j, e) for j, e in enumerate(o.events) if e.kind == "await" and chain(e.value) == coro]
@@ -507,13 +701,9 @@ def c(ctx):
             obs.add("the caught exception is reported as the pipe's terminal event on every path of the handler", o.kind == "return" and bool(reps), aw.fi, aw.node, detail="path [%s]" % o.describe())
     obs.flush()
     ctx.floor("awaits of the render coroutine", n_aw, 1)
-    # the task runs wrapped()
-    WO = Walker(prog)
-    for o in WO.run(outer):
-        if o.kind != "return":
-            continue
-        tasks = [e for _, e in o.calls(lambda e: isinstance(e.func, ast.Attribute) and e.func.attr in ("create_task", "ensure_future") and e.args and isinstance(e.args[0], ast.Call) and not e.args[0].args
-                                       and isinstance(e.args[0].func, ast.Name) and getattr(e.args[0].func, "_closure", (None,))[0] is fi.node, partial=False)]
+    # the task runs the wrapper
+    for o in oouts:
+        tasks = [e for _, e in o.calls(lambda e: is_task(e) and e.arg("coro", 0) is not None and (_resolve_coroutine(prog, WO, e.arg("coro", 0)) or (None,))[0] is fi, partial=False)]
         obs.add("run_driving_pipe always starts a task running the wrapper", bool(tasks), outer, tasks[0].node if tasks else None, construct=None if tasks else "run_driving_pipe")
     obs.flush()
     # Context.render_to_pipe
@@ -537,11 +727,12 @@ def c(ctx):
     obs.flush()
     ctx.floor("run_driving_pipe calls in Context.render_to_pipe", n_runs, 1)
     # add_exception produces a terminal event, add_response one with the caller's is_last
+    layout = _event_layout(ctx)
     for short, desc, check in (
         ("pipe.Pipe.add_exception", "add_exception emits an event that carries the exception and is final",
-         lambda ev, ps, f: chain(_kw(ev, "exception", 1)) == ps[0] and isinstance(_kw(ev, "is_last", 2), ast.Constant) and _kw(ev, "is_last", 2).value is True),
+         lambda fld, ps, f: chain(fld("exception")) == ps[0] and isinstance(fld("is_last"), ast.Constant) and fld("is_last").value is True),
         ("pipe.Pipe.add_response", "add_response emits an event that carries the response and the caller's is_last",
-         lambda ev, ps, f: chain(_kw(ev, "message", 0)) == ps[0] and chain(_kw(ev, "is_last", 2)) == ps[1] and not writes_to_name(f.node, ps[1]) and not writes_to_name(f.node, ps[0])),
+         lambda fld, ps, f: chain(fld("message")) == ps[0] and chain(fld("is_last")) == ps[1] and not writes_to_name(f.node, ps[1]) and not writes_to_name(f.node, ps[0])),
     ):
         af = prog.func(short)
         ap = params(af)
@@ -553,7 +744,13 @@ def c(ctx):
             ok = len(evs) == 1 and len(evs[0].args) == 1
             if ok:
                 ev = evs[0].args[0]
-                ok = isinstance(ev, ast.Call) and chain(ev.func) in ("self.Event", "Pipe.Event", "type(self).Event") and not any(isinstance(x, ast.Starred) for x in ev.args) and check(ev, ap, af)
+                if isinstance(ev, ast.Call) and getattr(ev, "_rec", None) is not None:
+                    # an Event built from the declaration the walker resolved: fields by keyword or by declared position
+                    ok = ev._rec == layout and check(lambda name, ev=ev: record_arg(ev, name), ap, af)
+                else:
+                    # declaration not readable as a named tuple: the confirmed layout (message, exception, is_last)
+                    ok = layout is None and isinstance(ev, ast.Call) and chain(ev.func) in ("self.Event", "Pipe.Event", "type(self).Event") and not any(isinstance(x, ast.Starred) for x in ev.args) \
+                        and check(lambda name, ev=ev: _kw(ev, name, EVENT_FIELDS.index(name)), ap, af)
             obs.add(desc, bool(ok), af, evs[0].node if evs else None, construct=None if evs else short.split(".", 1)[1])
     obs.flush()
 
@@ -1024,14 +1221,17 @@ def g(ctx):
 def h(ctx):
     prog = ctx.prog
     outer = prog.func("tokenmanager.TokenManager.process_request")
-    fi = prog.func("tokenmanager.TokenManager.process_request.<locals>.on_event")
-    op, ep = params(outer), params(fi, skip_self=False)
-    ctx.need(len(op) == 1 and len(ep) == 1, "process_request / on_event signature changed")
-    req, ev = op[0], ep[0]
-    ctx.need(not writes_to_name(outer.node, req) and _closure_ref(fi.node, req, req) and not writes_to_name(fi.node, ev), "request or event rebound")
-    W = Walker(prog)
-    outs = W.run(fi)
+    op = params(outer)
+    ctx.need(len(op) == 1, "process_request signature changed")
+    fi, env0, ev = _registered_handler(ctx, outer, "tokenmanager.TokenManager.process_request.<locals>.on_event", lambda o, r: True)
+    req = op[0]
+    ctx.need(not writes_to_name(outer.node, req) and not writes_to_name(fi.node, ev), "request or event rebound")
+    if fi.parent is outer:
+        ctx.need(_closure_ref(fi.node, req, req), "request rebound")
+    W = Walker(prog, records=_event_records(ctx, ev))
+    outs = W.run(fi, env=env0)
     ctx.need(bool(outs), "on_event has no path")
+    _event_premise(ctx, W)
     if W.followed:
         ctx.note("helpers followed from on_event: %s" % ", ".join(W.followed))
     obs = _Obs(ctx)
@@ -1080,7 +1280,7 @@ def h(ctx):
     for o in WO.run(outer):
         if o.kind != "return":
             continue
-        regs = [e for _, e in _method_calls(o, "on_event", lambda r: True, partial=False) if e.args and isinstance(e.args[0], ast.Name) and getattr(e.args[0], "_closure", (None,))[0] is fi.node]
+        regs = [e for _, e in _method_calls(o, "on_event", lambda r: True, partial=False) if e.arg("callback", 0) is not None and (_resolve_handler(prog, WO, e.arg("callback", 0)) or (None,))[0] is fi]
         obs.add("the handler is registered on the request's pipe on every path", bool(regs), outer, regs[0].node if regs else None, construct=None if regs else "process_request", detail="path [%s]" % o.describe())
     obs.flush()
 
@@ -1112,6 +1312,27 @@ def _from_cbs(v):
     return False
 
 
+def _entry_layout(prog):
+    """field names of a registration entry when every append site of Pipe puts a named tuple of one declaration into
+    the callback table (else None: plain tuples, read by position)"""
+    res = getattr(prog, "_c09_entry_layout", False)
+    if res is False:
+        W = Walker(prog)
+        lays = set()
+        for mf in prog.cls("pipe.Pipe").methods.values():
+            for k_, n_ in stores_to(mf.node, _CBS, nested=False):
+                if k_ == "append" and isinstance(n_, ast.Call) and n_.args:
+                    lays.add(W.ctor_layout(mf, resolve_local(mf.node, n_.args[0])))
+        res = lays.pop() if len(lays) == 1 else None
+        prog._c09_entry_layout = res
+    return res
+
+
+def _entry_records(prog):
+    lay = _entry_layout(prog)
+    return {_CBS: lay} if lay is not None else {}
+
+
 def _entry_of_callback(f):
     """f (resolved callee of a call) is component 0 of an element of the callback table -> the element (registration
     entry) expression, else None.  `for cb, _ in T`, `for entry in T: cb = entry[0]`, `for i, (cb, _) in enumerate(T)`
@@ -1134,6 +1355,9 @@ def _same_entry(arg, entry, arity):
     """arg denotes the registration entry: the element itself or a tuple rebuilt from all of its components"""
     if K(arg) == K(entry):
         return True
+    if isinstance(arg, ast.Call) and getattr(arg, "_rec", None) is not None and arity == len(arg._rec) and not arg.keywords and not any(isinstance(x, ast.Starred) for x in arg.args):
+        # the entry rebuilt by its named-tuple constructor compares equal to the entry, like the rebuilt plain tuple
+        arg = ast.Tuple(elts=list(arg.args), ctx=ast.Load())
     if isinstance(arg, ast.Tuple) and arity is not None and len(arg.elts) == arity:
         return all(isinstance(x, ast.Subscript) and isinstance(x.slice, ast.Constant) and x.slice.value == j and K(x.value) == K(entry) for j, x in enumerate(arg.elts))
     return False
@@ -1226,7 +1450,9 @@ def i(ctx):
                 v_ = resolve_local(mf.node, n_.args[0])
                 ar.add(len(v_.elts) if isinstance(v_, ast.Tuple) else None)
     arity = ar.pop() if len(ar) == 1 else None
-    W = Walker(prog, loop_bound=2)
+    if arity is None and _entry_layout(prog) is not None:
+        arity = len(_entry_layout(prog))
+    W = Walker(prog, loop_bound=2, records=_event_records(ctx, p[0]), elem_records=_entry_records(prog))
     outs = W.run(fi)
     ctx.need(bool(outs), "_add_event has no path")
     obs = _Obs(ctx)
@@ -1298,7 +1524,7 @@ def i(ctx):
     ctx.floor("callback invocations in _add_event", n_del, 1)
     # _end
     ef = prog.func("pipe.Pipe._end")
-    WE = Walker(prog, loop_bound=2)
+    WE = Walker(prog, loop_bound=2, elem_records=_entry_records(prog))
     n_cb = 0
     set_node = None
     for o in WE.run(ef):
@@ -1326,7 +1552,7 @@ def i(ctx):
     rebinders = sorted({f_ for f_, hits in writers.items() for k, n in hits if k == "assign" and f_ not in (ef.short, "pipe.Pipe.__init__")} | {uf.short})
     for f_ in rebinders:
         rf = prog.func(f_)
-        WU = Walker(prog, loop_bound=2)
+        WU = Walker(prog, loop_bound=2, elem_records=_entry_records(prog))
         for o in WU.run(rf):
             for j, s_ in o.stores(lambda s_: s_.kind == "store" and _is_cbs(s_.target) and not is_false(s_.value)):
                 fresh = False
@@ -1694,3 +1920,14 @@ R.seed("C09.i", F_PIPE, "        if not self._any_interest():\n            self.
 R.seed("C09.i", F_PIPE, "        cbs = self._event_callbacks\n        self._event_callbacks = False\n        tombstone = self.Event(None, None, True)\n        [cb(tombstone) for (cb, _) in cbs]\n", "        cbs = self._event_callbacks\n        tombstone = self.Event(None, None, True)\n        [cb(tombstone) for (cb, _) in cbs]\n        self._event_callbacks = False\n", "pipe marked ended only after the tombstone went out")
 R.seed("C09.j", F_ERR, "self.message.encode(\"utf8\")", "self.message.encode(\"ascii\")", "diagnostic payload not UTF-8")
 R.seed("C09.m", "aiocoap/messagemanager.py", "                1 << message.code.class_ - 1\n", "                1 << message.code.class_\n", "mask shifted by one class")
+
+# seeds for the second pass: events read by position / unpacking / keyword, sibling closures, conditional expressions
+R.seed("C09.a", F_PIPE, "            old_pr.add_response(event.message, event.is_last)\n", "            old_pr.add_response(event[0], event[1])\n", "the exception slot of the event is passed as is_last (positional read of the wrong field)")
+R.seed("C09.a", F_PIPE, "        if event.message is not None:\n            old_pr.add_response(event.message, event.is_last)\n            return not event.is_last\n",
+       "        message, _exc, is_last = event\n        if message is not None:\n            old_pr.add_response(message, is_last)\n            return is_last\n", "unpacked event: registration inverted")
+R.seed("C09.a", F_PIPE, "            old_pr.add_response(msg, is_last=True)\n", "            old_pr.add_response(msg, is_last=True if msg.payload else False)\n", "error response final only when it has a payload (conditional expression)")
+R.seed("C09.b", F_PIPE, "            old_pr.add_response(Message(code=INTERNAL_SERVER_ERROR), is_last=True)\n\n        return False\n\n",
+       "            old_pr.add_response(bare(e), is_last=True)\n\n        return False\n\n    def bare(exc):\n        return Message(code=INTERNAL_SERVER_ERROR, payload=str(exc).encode())\n\n", "exception text leaks through a sibling closure of the handler")
+R.seed("C09.c", F_PIPE, "        self._add_event(self.Event(None, exception, True))\n", "        self._add_event(self.Event(exception, None, True))\n", "the exception is put into the message slot of the event")
+R.seed("C09.c", F_PIPE, "        self._add_event(self.Event(None, exception, True))\n", "        self._add_event(self.Event(message=None, exception=exception, is_last=False))\n", "exception event not terminal (keyword construction)")
+R.seed("C09.h", F_TM, "            if not ev.is_last:\n                return True\n", "            if not ev[0]:\n                return True\n", "registration follows the message slot instead of is_last (positional read)")
